@@ -141,6 +141,15 @@ theorem required_ge_live (p : Params) (ops : List Op) :
     66 * onlinePower (reach p ops).oracles / 100 ≤ 66 * (reach p ops).lastTotalPower / 100 :=
   Nat.div_le_div_right (Nat.mul_le_mul_left _ (total_ge_online p ops))
 
+/-- the property's last clause in one statement: for EVERY history and every claim, the attestation the claim newly marks
+observed carries DISTINCT registered voters holding at least 66 % (truncated) of the combined power of the oracles that
+are online at that moment -/
+theorem observed_implies_live_quorum (p : Params) (ops : List Op) (w i n h : Nat) (k : Kind) (e : Nat) (a' : Att)
+    (ha : a' ∈ (step (reach p ops) (.claim w i n h k e)).1.atts) (hob : a'.observed = true)
+    (hnew : ¬ ∃ b ∈ (reach p ops).atts, b.observed = true ∧ b.nonce = a'.nonce ∧ b.hash = a'.hash) :
+    66 * onlinePower (reach p ops).oracles / 100 ≤ distinctPower (reach p ops).oracles a'.votes :=
+  Nat.le_trans (required_ge_live p ops) (observed_quorum_distinct p ops w i n h k e a' ha hob hnew).2
+
 /-- where the total is refreshed: right after a successful bond / add-delegate, and after an end block that slashed or
 stored an oracle set, it EQUALS the online power; a governance oracle update does not refresh it -/
 theorem refresh_sites :
@@ -183,6 +192,10 @@ theorem vote_requires_online_bridger (s : State) (w i n h : Nat) (k : Kind) (e :
   simp only [step] at hok ⊢
   obtain ⟨a, orc, h1, h2, h3, _, _, _, heq⟩ := claim_ok s w i n h k hok
   exact ⟨a, orc, h1, h2, h3, by rw [heq, attest_lastNonce]; exact get_set_self _ _ _⟩
+
+/-- `EditBridger` deletes the index entry of the OLD bridger before it overwrites the record's bridger (the order the
+index invariant behind `voter_is_registered_bridger` depends on) -/
+theorem edit_bridger_order : editBridgerDeletesOldIndexFirst = true := by decide
 
 /-- in every reachable state the bridger index is consistent with the registry, so the accepted claim's bridger is THE
 bridger registered in the record of the online oracle whose vote is recorded -/
